@@ -17,11 +17,15 @@ def js(o):
     return json.dumps(o, separators=(',', ':'))
 
 
-def generate(cfg, rd, timeout):
+def generate(cfg, rd, timeout, walks=1000):
     out = os.path.join(rd, 'gen-%s.txt' % cfg)
     md = os.path.join(rd, 'md-' + cfg)
     cmd = ['java', '-XX:+UseParallelGC', '-Xmx6g', '-Xss64m', '-cp', vlib.TLA_CP, 'tlc2.TLC', '-workers', '1', '-noGenerateSpecTE',
            '-metadir', md, '-config', cfg, 'LraGen.tla']
+    sim = 'sim' in cfg      # random walks over the model instead of the exhaustive search
+    if sim:
+        cmd[cmd.index('-workers') + 1] = '4'
+        cmd[-1:-1] = ['-simulate', 'num=%d' % walks, '-depth', '14', '-seed', '20260926']
     with open(out, 'w') as fh:
         try:
             rc = subprocess.run(cmd, cwd=vlib.SPEC, stdout=fh, stderr=subprocess.STDOUT, timeout=timeout).returncode
@@ -29,9 +33,11 @@ def generate(cfg, rd, timeout):
             raise vlib.CheckError('LraGen/%s: timeout' % cfg)
     tail = subprocess.run(['tail', '-n', '12', out], capture_output=True, text=True).stdout
     m = re.search(r'(\d+) states generated, (\d+) distinct states found, 0 states left', tail)
+    if sim:
+        m = re.search(r'The number of states generated: (\d+)()', tail)
     if rc != 0 or not m:
         raise vlib.CheckError('LraGen/%s failed (rc=%d):\n%s' % (cfg, rc, tail))
-    return out, {'module': 'LraGen', 'cfg': cfg, 'states_generated': int(m.group(1)), 'distinct_states': int(m.group(2))}
+    return out, {'module': 'LraGen', 'cfg': cfg, 'states_generated': int(m.group(1)), 'distinct_states': int(m.group(2) or 0)}
 
 
 def parse(path):
